@@ -303,6 +303,47 @@ theorem master_key_error_writes_no_ring (m : Machine F K) (round : String) (entr
           · rename_i hne
             simp [hne] at h
 
+/-- **a deal is its sender's.** A payload in which another participant's entry carries a deal that names a different dealer
+(the machine's own index included - which `ProcessDeals` would skip as "the own deal") is refused: since fix 9d113d5 the
+handler compares `deal.Index` with the entry's participant id before filing the deal. On the pinned tree a well-formed
+ciphertext of `{}` (dealer index 0) sent to participant 0 was filed, skipped, and the deals step answered with success. -/
+theorem foreign_index_refused (entries : List (Int × String × Option (OuterDeal F))) : ∀ (i : Inst F K) (pid : Int) (name : String) (od : OuterDeal F),
+    (pid, name, some od) ∈ entries → pid ≠ (i.pid : Int) → (od.idx : Int) ≠ pid → (storeDeals i entries).2 = false := by
+  induction entries with
+  | nil => intro i pid name od h; simp at h
+  | cons e rest ih =>
+    intro i pid name od hmem hne hidx
+    obtain ⟨p0, n0, d0⟩ := e
+    have hstep : ∀ j : Inst F K, j.pid = i.pid → (pid, name, some od) ∈ rest → (storeDeals j rest).2 = false :=
+      fun j hj hm => ih j pid name od hm (by rw [hj]; exact hne) hidx
+    unfold storeDeals
+    rcases List.mem_cons.mp hmem with heq | hin
+    · simp only [Prod.mk.injEq] at heq
+      obtain ⟨rfl, rfl, rfl⟩ := heq
+      simp [hne, hidx]
+    · split
+      · exact hstep i rfl hin
+      · cases d0 with
+        | none => rfl
+        | some od0 =>
+          simp only
+          split
+          · rfl
+          · exact hstep _ rfl hin
+
+theorem foreign_index_step_refused (m : Machine F K) (round : String) (entries : List (Int × String × Option (OuterDeal F))) (ord : List String)
+    (i : Inst F K) (hi : lookup round m.insts = some i) (pid : Int) (name : String) (od : OuterDeal F)
+    (hmem : (pid, name, some od) ∈ entries) (hne : pid ≠ (i.pid : Int)) (hidx : (od.idx : Int) ≠ pid) :
+    (responsesOp m round entries ord).2 = Res.err := by
+  unfold responsesOp
+  simp only [hi]
+  have := foreign_index_refused entries i pid name od hmem hne hidx
+  generalize storeDeals i entries = q at this
+  obtain ⟨i1, ok⟩ := q
+  simp only at this
+  subst this
+  rfl
+
 /-! ### the hypotheses are met: a machine of a two-party round over the integers -/
 
 def exInst : Inst Int Nat :=
@@ -321,6 +362,8 @@ def forgedDeal : OuterDeal Int :=
 
 example : (responsesOp exMachine "r" [(1, "b", some goodDeal)] ["b"]).2 = Res.responses 0 [1] := by decide
 example : (responsesOp exMachine "r" [(1, "b", some forgedDeal)] ["b"]).2 = Res.err := by decide
+/-- the `{}` deal of the pinned tree: dealer index 0 = the machine's own, in participant b's entry -/
+example : (responsesOp exMachine "r" [(1, "b", some { idx := 0, sigOk := false, inner := none })] ["b"]).2 = Res.err := by decide
 example : ¬ Acceptable (filed exInst [(1, "b", some forgedDeal)]) forgedDeal := by
   intro h
   obtain ⟨_, _, d, hd, _, _, _, e, he, hl⟩ := h
